@@ -659,6 +659,11 @@ def cem_chain_tables(seed, quick, facts):
     cases = [
         ([-1.0], [2.0]), ([0.5], [1.0]), ([-(2.0**-20)], [2.0**-20]), ([2.0**19], [2.0**21]),
         ([-2.0, -(2.0**-20), 0.0], [-0.5, 2.0**-20, 2.0**21]),
+        # narrow boxes far from zero: the elites are (nearly) tied relative to their magnitude, so the variance
+        # handed to the next sampling step is tiny compared with mean**2 (faces with short mantissas: blending exact)
+        # (next to an ordinary dimension: optimize_cem stops when the LARGEST variance falls below epsilon)
+        ([-2.0, -4096.0 - 2.0**-4], [2.0, -4096.0]),
+        ([1024.0, -3.0], [1024.0 + 2.0**-6, 1.0]),
     ]
     n = 0
     for ci, (lo, hi) in enumerate(cases if not quick else cases[::2]):
@@ -682,6 +687,26 @@ def cem_chain_tables(seed, quick, facts):
                         facts.append(box_fact("optimize_cem:sample_out_of_box", "samples, " + tag, lo[j], hi[j], hist[:, j], how=how))
                         facts.append(box_fact("optimize_cem:mean_out_of_box", "means, " + tag, lo[j], hi[j], np.concatenate([path[:, j], np.asarray(sol)[j : j + 1]]), how=how))
                     n += 1
+        # a longer search that converges on an interior optimum: the variance handed from update to sampling shrinks
+        # over the iterations until the elites are tied to within rounding
+        mean = (lo + f(0.5) * (hi - lo)).astype(f)
+        var = ((hi - lo) ** 2 / f(16.0)).astype(f)
+        for ne, alpha, kk in ((4, 0.125, 0), (8, 0.0, 1)):
+            kid = 9300 + 2 * ci + kk
+            target = L.jnp.asarray((lo + f(0.25) * (hi - lo)).astype(f))
+            width = L.jnp.asarray(hi - lo)
+            how = {"part": "chain", "quick": quick, "low": lo.tolist(), "high": hi.tolist(), "mean": mean.tolist(), "var": var.tolist(), "ne": ne, "alpha": alpha, "kid": kid, "seed": seed, "interior": True}
+            try:
+                sol, path, hist = L.cem.optimize_cem(lambda s: -L.jnp.sum(((s - target) / width) ** 2, axis=-1), mean, var, make_key(seed, kid), 7, 32, ne, lo, hi, epsilon=0.0, alpha=alpha, return_history=True)
+            except Exception as e:  # noqa: BLE001
+                facts.append({"kind": "box", "key": f"optimize_cem:raises:{type(e).__name__}", "how": how, "tag": f"optimize_cem raises {e}", "lo": 0, "hi": 0, "k": 0, "v": [1]})
+                continue
+            hist, path = np.asarray(hist).reshape(-1, len(lo)), np.asarray(path).reshape(-1, len(lo))
+            for j in range(len(lo)):
+                tag = f"optimize_cem (7 iterations towards an interior optimum) bounds [{lo[j]!r}, {hi[j]!r}] n_elite {ne} alpha {alpha}"
+                facts.append(box_fact("optimize_cem:sample_out_of_box", "samples, " + tag, lo[j], hi[j], hist[:, j], how=how))
+                facts.append(box_fact("optimize_cem:mean_out_of_box", "means, " + tag, lo[j], hi[j], np.concatenate([path[:, j], np.asarray(sol)[j : j + 1]]), how=how))
+            n += 1
     return n
 
 
